@@ -30,6 +30,13 @@ def gen_cases(rng, n):
     while len(out) < n:
         r = H.gen_hierarchy(rng, max_depth=rng.randint(1, 3), max_children=4, p_shuffle=1.0, p_rep=0.1)
         if 2 <= H.count_nodes(r) <= 10 and (nontrivial({"routine": r}) or rng.random() < 0.25):
+            if rng.random() < 0.3:
+                # parameter names that only differ in leading zeros of a digit run, or in letter case: equal under a "natural"
+                # or case-insensitive sort key, so that their order would be whatever a set happens to yield
+                pi = rng.choice([{"N": "k1", "M": "k01", "x": "r2", "y": "r02"}, {"N": "q", "M": "Q_", "x": "p10", "y": "p010"},
+                                 {"N": "a1b2", "M": "a01b2", "x": "a1b02", "y": "a001b2"}])
+                for path in list(H.all_paths(r)):
+                    r = H.rename_at(r, path, pi)
             out.append({"routine": r})
     return out
 
